@@ -730,7 +730,10 @@ func (i *Interpreter) callCallable(fn interface{}, args []interface{}, env *Envi
 	case *LambdaClosure:
 		return i.callLambdaClosure(f, args)
 	case Function:
-		fnEnv := newCallScope(NewEnvironment(), env)
+		// Module scope as parent, as for every other call of a user function:
+		// the body sees the module's functions and constants (it may well call
+		// itself), not the caller's locals.
+		fnEnv := newCallScope(i.globalEnv, env)
 		for idx, param := range f.Params {
 			if idx < len(args) {
 				fnEnv.Define(param.Name, args[idx])
